@@ -60,6 +60,9 @@ def havoc_conditions(src, frontend):
                 end = None
                 for j in range(idx + 1, len(toks)):
                     k2, s2, e2 = toks[j]
+                    if k2 == "ident" and depth == 0 and src[s2:e2] in ("invariant", "invariant_except_break", "ensures", "decreases"):
+                        end = s2   # a spliced loop contract follows the condition
+                        break
                     if k2 != "punct":
                         continue
                     ch = src[s2]
